@@ -3,8 +3,9 @@
 (* C18 -- trace layer.  One ndjson line per case served by the REAL router *)
 (* (kprapi.Server.setupRouter, hooked), with the observations of each      *)
 (* repetition of the request:                                              *)
-(*   {k:"case", stack, m, t, sps, w, h, target, obs: [{status, bk, effect, *)
-(*    panic}, ...]}                                                        *)
+(*   {k:"case", stack, ui, m, t, sps, w, h, target, obs: [{status, bk,     *)
+(*    effect, panic}, ...]}  (+ order, inst: construction order of the     *)
+(*    servers of the child process the line comes from)                    *)
 (*   {k:"hist", stack, w, reqs: [{m,t,sps,h,target}..], obs: [o1, o2, ..], *)
 (*    ref: [decision of each request on a fresh instance]}                 *)
 (*   {k:"conc", stack, w, reqs: [ra, rb], obs: [[answers of ra], [of rb]], *)
@@ -36,7 +37,7 @@ ReqOK(r) ==
 \* k = "case": one request, obs = its repetitions (each on another instance)
 SpecAllowsCase(line) ==
     /\ ReqOK(line)
-    /\ \A i \in DOMAIN line.obs : \E r \in ServeReq(line, line.w, line.stack) : Allowed(line.obs[i], r)
+    /\ \A i \in DOMAIN line.obs : \E r \in ServeReq(line, line.w, line.stack, line.ui) : Allowed(line.obs[i], r)
 
 \* k = "hist": reqs served one after the other by one instance; the spec is stateless, so each
 \* observation must be a response the request gets alone
@@ -44,8 +45,8 @@ SpecAllowsHist(line) ==
     /\ Len(line.obs) = Len(line.reqs) /\ Len(line.ref) = Len(line.reqs)
     /\ \A i \in DOMAIN line.reqs :
          /\ ReqOK(line.reqs[i])
-         /\ \E r \in ServeReq(line.reqs[i], line.w, line.stack) : Allowed(line.obs[i], r)
-         /\ \E r \in ServeReq(line.reqs[i], line.w, line.stack) : Allowed(line.ref[i], r)
+         /\ \E r \in ServeReq(line.reqs[i], line.w, line.stack, FALSE) : Allowed(line.obs[i], r)
+         /\ \E r \in ServeReq(line.reqs[i], line.w, line.stack, FALSE) : Allowed(line.ref[i], r)
 
 \* k = "conc": status / body of every answer is one the request gets alone; the effects seen
 \* on the instance are effects of responses of the two requests
@@ -53,10 +54,10 @@ SpecAllowsConc(line) ==
     /\ \A i \in DOMAIN line.reqs :
          /\ ReqOK(line.reqs[i])
          /\ \A j \in DOMAIN line.obs[i] :
-              \E r \in ServeReq(line.reqs[i], line.w, line.stack) :
+              \E r \in ServeReq(line.reqs[i], line.w, line.stack, FALSE) :
                  r.status = 0 \/ (line.obs[i][j].status = r.status /\ line.obs[i][j].bk = r.bk)
     /\ \A k \in DOMAIN line.eff :
-         \E i \in DOMAIN line.reqs : \E r \in ServeReq(line.reqs[i], line.w, line.stack) : r.effect = line.eff[k]
+         \E i \in DOMAIN line.reqs : \E r \in ServeReq(line.reqs[i], line.w, line.stack, FALSE) : r.effect = line.eff[k]
 
 LineViol(line) ==
     CASE line.k = "case" -> Failed(line.m, line.t, line.sps, line.w, line.obs)
